@@ -362,6 +362,16 @@ for _t, _n in (("m", "matheron"), ("c", "cressie")):
                           "forall(dd, d, variogram.shape[0], forall(x, 0, variogram.shape[1], "
                           "variogram[dd, x] == entry(variogram)[dd, x]))"]},
     )
+# explicit hints for the Cressie normalisation (pure arithmetic lemmas, each proved on its own as
+# obligation lemma.<name>, then instantiated at the loop body): keeps the loop VC free of non-linear search
+CONTRACTS[_E + "normalization_cressie"]["lemmas"] = {
+    "reciprocal": dict(vars={"v": "R", "c": "R"}, hyp=["c >= 1.0"], claim="1.0 / c * v == v / c"),
+    "denominator": dict(vars={"c": "I"}, hyp=["c >= 1"],
+                        claim="c * c != 0 and 0.457 + 0.494 / c + 0.045 / (c * c) > 0.0"),
+}
+CONTRACTS[_E + "normalization_cressie"]["use"] = {"i": [
+    ("reciprocal", {"v": "variogram[i]", "c": "max(counts[i], 1)"}),
+    ("denominator", {"c": "max(counts[i], 1)"})]}
 CONTRACTS[_E + "choose_estimator_func"] = dict(
     ensures={"select": "result == ite(estimator_type == 'm', fptr('estimator_matheron'), fptr('estimator_cressie'))"})
 CONTRACTS[_E + "choose_estimator_normalization"] = dict(
